@@ -7,6 +7,7 @@ import PhyloModel.Props.C13
 #print axioms C13.get_set_by_name
 #print axioms C13.indexed_iter_spec
 #print axioms C13.to_map_spec
+#print axioms C13.to_map_functional
 #print axioms C13.extremum_spec
 #print axioms C13.label_position
 #print axioms C13.relabel
